@@ -50,6 +50,11 @@ class HistoryScanner(UDSScanner):
                 rec.rec("toggle", on=step["toggle"])
                 self.implicit_logging = step["toggle"]
                 continue
+            if step.get("reset_state"):
+                # what ECU.power_cycle() / refresh_state(reset_state=True) do: the client's view goes back to the default state
+                self.ecu.state.reset()
+                self.n_state_resets = getattr(self, "n_state_resets", 0) + 1
+                continue
             if step.get("sleep"):
                 await asyncio.sleep(step["sleep"])
             pdu = bytes.fromhex(step["pdu"])
@@ -207,6 +212,8 @@ class C11(Check):
             if toggles and rng.random() < 0.15:
                 on = not on
                 hist.append({"toggle": on})
+            if rng.random() < 0.04:
+                hist.append({"reset_state": True})
             step: dict[str, Any] = {"pdu": p, "max_retry": rng.choice([0, 0, 0, 1]), "timeout": rng.choice([0.1, 0.3]), "analyze": rng.random() < 0.3}
             if rng.random() < 0.2:
                 step["sleep"] = rng.choice([0.01, 0.2, 0.6])
@@ -244,8 +251,10 @@ class C11(Check):
             plan["state_race"] = True
             seq_ = []
             for _ in range(rng.choice([4, 8, 14])):
+                if rng.random() < 0.15:
+                    seq_.append("reset_state")
                 seq_.append(bytes([0x10, rng.choice(offered + [1])]).hex() if rng.random() < 0.6 else rng.choice(["22f186", "22f190", "3e00"]))
-            plan["history"] = [{"pdu": p_, "max_retry": 0, "timeout": 0.3, "analyze": False} for p_ in seq_ if p_ != "3e00"]
+            plan["history"] = [({"reset_state": True} if p_ == "reset_state" else {"pdu": p_, "max_retry": 0, "timeout": 0.3, "analyze": False}) for p_ in seq_ if p_ != "3e00"]
             plan["outcomes"] = ["pending"] * (2 * len(seq_) + 2)
             plan["tp"] = 0.05
             plan["db_lat"] = 0.0005
@@ -682,6 +691,8 @@ class C11(Check):
             bump(res["probes"], "over_1000_rows_queued_when_the_run_was_interrupted")
         if plan.get("backlog"):
             bump(res["faults"], "database_far_slower_than_the_ecu")
+        if getattr(cmd, "n_state_resets", 0):
+            bump(res["faults"], "client_state_reset_by_power_cycle", cmd.n_state_resets)
         if plan.get("state_race"):
             bump(res["faults"], "tester_present_queued_behind_slow_session_changes")
         if world.sql.orphaned:
